@@ -31,3 +31,4 @@ def run(rep, tier, seed, scratch):
             extra.append(_C.gen_case(gg, 'vertex', {'precision': prec, 'step_solver_type': ss, 'linear_solver_type': 'LU',
                                                   'iteration_limit': 40, 'penalty_update': 'Constant'}, scaling=False))
     camp_props.run_single(rep, 'C06', tier, seed + 6, 0, 16, families=['vertex'], name='all_active', scaling=False, extra_cases=extra)
+    camp_props.run_input_forms(rep, tier, seed)
